@@ -433,7 +433,8 @@ def subset_crash_class(c):
         return "subset-factor-without-plate", "TypeError"
     for s in c["steps"]:
         for v in bf[s["f"]]:
-            if v not in plated and sum(1 for f in bf if v in f) < 2:
+            # the rescaled split only happens for a proper batch (scale = |batch| / |plate| < 1)
+            if v not in plated and sum(1 for f in bf if v in f) < 2 and len(c["batch"]) < c["plate"]["n"]:
                 return "subset-scalar-variable-single-owner", "KeyError"
     if c["writeback"] in ("update", "setitem") and any(v not in plated for f in bf for v in f):
         return "subset-inplace-writeback-scalar-variable", "TypeError"
